@@ -56,7 +56,8 @@ def gen_case(rng: random.Random, tier: str) -> dict:
     entry = rng.choice(["formula", "formula", "spec", "fitted_spec", "structured", "structured_specs"])
     if entry == "fitted_spec" and terms and rng.random() < 0.6:  # something fitted (a mean) survives in the gradient
         t = rng.choice(terms)
-        if "center(p)" not in t and not any(set(u) == set(t + ["center(p)"]) for u in terms):
+        lit = {"2", "3", "0.5", "10"}
+        if "center(p)" not in t and not any(set(u) - lit == (set(t) | {"center(p)"}) - lit for u in terms):
             t.append("center(p)")
     return {
         "terms": terms, "icpt": rng.random() < 0.6, "ordering": rng.choice(["degree", "none", "sort"]),
